@@ -341,7 +341,7 @@ def run(tier, seed, only):
                        "tree_hash": core.tree_hash(), "exhaustive": False,
                        "checker_cmd": "z3 4.8.12 + cvc5 1.0 (QF_LRA) on build/C13/*.smt2; cbmc 6.11 for O3"},
           "assumptions": META["assumptions"], "wall_s": round(wall, 1), "violations": len(violations)}
-    with open(os.path.join(EVIDENCE, prop + ".json"), "w") as f:
+    with open(os.path.join(EVIDENCE, prop + ".json") if not only else os.path.join(BUILD, prop + ".partial-evidence.json"), "w") as f:
         json.dump(ev, f, indent=1)
     print("SUMMARY property=C13 tier=%s queries=%d violated=%d undecided=%d wall=%.0fs" % (tier, queries, len(violations), len(undecided), wall))
     return 1 if violations else 0
